@@ -58,6 +58,8 @@ type insert struct {
 	metadata bytemap.ByteMap
 	offset   wal.Offset
 	source   int
+	// additional values of the same point (array values)
+	moreVals []encoding.TSParams
 }
 
 type rowStore struct {
@@ -290,6 +292,9 @@ func (rs *rowStore) processInserts(offsetsBySource common.OffsetsBySource, stop 
 			ms.offsetChanged = true
 			if insert.key != nil {
 				ms.tree.Update(insert.key, nil, insert.vals, insert.metadata)
+				for _, vals := range insert.moreVals {
+					ms.tree.Update(insert.key, nil, vals, insert.metadata)
+				}
 				rs.t.updateHighWaterMarkMemory(insert.vals.TimeInt())
 			}
 			rs.mx.Unlock()
